@@ -5,7 +5,105 @@ import (
 	"math/big"
 )
 
-func init() { register("C10", runC10, nil) }
+func init() { register("C10", runC10, replayEvents("C10", c10Oracle)) }
+
+// c10Oracle: the validator's verdict (index of the first rejected event) must equal the recogniser's.
+func c10Oracle(es []Ev) (bool, string, string) {
+	rc := defaultRulesCfg()
+	rej, _, _ := runRules(rc, es)
+	want, _ := wfCheck(es, rc.MaxArray, int(rc.MaxIdent))
+	return rej == want, fmt.Sprintf("first-invalid=%d", want), fmt.Sprintf("rejected-at=%d", rej)
+}
+
+// c10Class: a narrow class name for a disagreement, from the event at which the two verdicts part.
+func c10Class(es []Ev, rej, want int) string {
+	at := rej
+	kind := "accepts-invalid"
+	if want < 0 || (rej >= 0 && rej < want) {
+		kind = "rejects-valid"
+	} else {
+		at = want
+	}
+	ctx := ""
+	depth := []string{}
+	for i := 0; i < at && i < len(es); i++ {
+		switch es[i].K {
+		case "l", "m", "edge", "node", "rec", "rt", "mk":
+			depth = append(depth, es[i].K)
+		case "e":
+			for len(depth) > 0 && depth[len(depth)-1] == "mk" {
+				depth = depth[:len(depth)-1]
+			}
+			if len(depth) > 0 {
+				depth = depth[:len(depth)-1]
+			}
+		}
+	}
+	if len(depth) > 0 {
+		ctx = depth[len(depth)-1]
+	}
+	ev := "end"
+	if at >= 0 && at < len(es) {
+		ev = es[at].K
+	}
+	nested := ""
+	mk := 0
+	for _, d := range depth {
+		if d == "mk" {
+			mk++
+		}
+	}
+	if mk >= 1 && kind == "rejects-valid" {
+		nested = "/marked-container"
+	}
+	return fmt.Sprintf("C10/%s/%s-in-%s%s", kind, ev, ctx, nested)
+}
+
+// hasNestedMarker: does a marker occur inside a marked container before event index `upto`?
+func hasNestedMarker(es []Ev, upto int) bool {
+	stack := []bool{} // is the container marked (directly or through an enclosing one)?
+	pending := false
+	inMarked := func() bool { return len(stack) > 0 && stack[len(stack)-1] }
+	for i := 0; i < upto && i < len(es); i++ {
+		switch es[i].K {
+		case "mk":
+			if inMarked() {
+				return true
+			}
+			pending = true
+		case "l", "m", "edge", "node", "rec":
+			stack = append(stack, pending || inMarked())
+			pending = false
+		case "rt":
+			stack = append(stack, false)
+		case "e":
+			if len(stack) > 0 {
+				stack = stack[:len(stack)-1]
+			}
+		case "pad", "cm", "ac", "ad":
+		default:
+			pending = false
+		}
+	}
+	return false
+}
+
+func (c *Ctx) c10Judge(es []Ev, rej int) {
+	rc := defaultRulesCfg()
+	want, _ := wfCheck(es, rc.MaxArray, int(rc.MaxIdent))
+	if rej != want {
+		key := c10Class(es, rej, want)
+		if relaxed, _ := wfCheckOpt(es, rc.MaxArray, int(rc.MaxIdent), true); relaxed == rej {
+			key = "C10/accepts-invalid/key-reference-to-marked-float" // the only deviation is the float bit of the AllowKeyable mask
+		} else if relaxed, _ := wfCheckRelaxed(es, rc.MaxArray, int(rc.MaxIdent), false, true); relaxed == rej {
+			key = "C10/marker-on-chunked-key-not-registered"
+		} else if (want < 0 || rej < want) && rej >= 0 && hasNestedMarker(es, rej) {
+			key = "C10/rejects-valid/marker-inside-marked-container"
+		}
+		c.Fail(Replay{Kind: "events", Key: key, Input: map[string]string{"events": evsString(es)},
+			Expect: fmt.Sprintf("first-invalid=%d", want), Got: fmt.Sprintf("rejected-at=%d", rej)})
+	}
+}
 
 func runC10(c *Ctx) {
 	c.Rep.Rule = "random rules-valid documents from the tree generator, their mutants, and all sequences over a 30-event alphabet up to a length bound (prefix-pruned); non-trivial = more than 3 events; distinct by event text"
@@ -17,23 +115,51 @@ func runC10(c *Ctx) {
 		rej, _ := c.addRulesCase(rc, es)
 		c.Count(evsString(es), len(es) > 3)
 		c.Dist(fmt.Sprintf("valid-gen/accepted=%v", rej < 0))
-		if rej >= 0 {
-			c.Fail(Replay{Kind: "valid-rejected", Key: "C10/valid-rejected", Input: map[string]string{"events": evsString(es)},
-				Expect: "accepted", Got: fmt.Sprintf("rejected at %d (%s)", rej, es[rej])})
-		}
+		c.c10Judge(es, rej)
 		if i < 3 {
 			c.Sample(evsString(es))
 		}
 		m := g.Mutate(es)
 		rej2, _ := c.addRulesCase(rc, m)
+		c.c10Judge(m, rej2)
 		c.Count(evsString(m), len(m) > 3)
 		c.Dist(fmt.Sprintf("mutant/accepted=%v", rej2 < 0))
+	}
+	// side streams inside the two known deviation classes, and their fixed witnesses
+	for _, w := range []string{"bd v:0 l mk:61 l mk:62 pi:1 e e ed", "bd v:0 l mk:61 fl:3ff8000000000000 m ref:61 null e e ed",
+		"bd v:0 m mk:62 uid:30313233343536373839616263646566 null mk:62 ab:2 ac:0:false null e ed"} {
+		es, _ := parseEvs(w)
+		rej, _ := c.addRulesCase(rc, es)
+		c.Count(w, true)
+		c.c10Judge(es, rej)
+	}
+	optN := DefaultGenOpts()
+	optN.NestedMarkers = true
+	gn := NewEvGen(c.Rng, optN)
+	for i := 0; i < c.Pick(60, 1000); i++ {
+		es := gn.Document()
+		rej, _ := c.addRulesCase(rc, es)
+		c.Count(evsString(es), len(es) > 3)
+		c.Dist(fmt.Sprintf("nested-marker-gen/accepted=%v", rej < 0))
+		c.c10Judge(es, rej)
 	}
 	// bounded-exhaustive exploration over the abstract alphabet
 	alpha := rulesAlphabet()
 	cf := c.exhCases(rc)
 	exploreRules(c, rc, c.Pick(4, 6), c.Pick(300, 5000), 12, func(p []int, mask *big.Int, acc []int) {
 		cf.Add(cPair("["+idxString(p)+"]", mask.String()), fmt.Sprintf("prefix [%s] accepts-next %v", idxString(p), acc))
+		base := make([]Ev, len(p))
+		for i, x := range p {
+			base[i] = alpha[x]
+		}
+		for i := range alpha {
+			es := append(append([]Ev{}, base...), alpha[i])
+			rej := -1
+			if mask.Bit(i) == 0 {
+				rej = len(base)
+			}
+			c.c10Judge(es, rej)
+		}
 		c.Rep.Evaluations += len(alpha)
 		c.Rep.Distinct += len(alpha)
 		c.Dist(fmt.Sprintf("exh/prefix-len=%d", len(p)))
